@@ -133,16 +133,39 @@ def kfac_state(pre):
                pre._steps, dict(pre._mini_steps))
 
 
+def eval_between(model, twin, pre, shapes, dtype, step, seed):
+    """An eval-mode forward/backward pass in the middle of an iteration;
+    parameter gradients are restored afterwards."""
+    saved = [(p, None if p.grad is None else p.grad.clone())
+             for m in (model, twin) for p in m.parameters()]
+    k0 = kfac_state(pre)
+    for m in (model, twin):
+        m.eval()
+    xs = inputs(shapes, dtype, step, seed)
+    model(xs).backward()
+    twin(xs).backward()
+    for m in (model, twin):
+        m.train()
+    for p, g in saved:
+        p.grad = g
+    if kfac_state(pre) != k0:
+        return 'an eval-mode forward/backward pass inside a training ' \
+               'iteration changed K-FAC state'
+    return None
+
+
 def case(part, item):
     kinds, dname, (method, prediv), idt, fdt, modes, seed = item[:7]
     kl = item[7] if len(item) > 7 else 1e-3
+    hook, acc = item[8] if len(item) > 8 else (True, 1)
     import kfac
 
     dtype = R.DT[dname]
     name = (f"{'+'.join(kinds)}/{dname}/{method}/{prediv}/idt={idt}/fdt="
             f"{fdt}/modes={modes}/kl={kl}")
+    name += f'/hook={hook}/acc={acc}'
     det = {'item': [list(kinds), dname, [method, prediv], idt, fdt, modes,
-                    seed, kl]}
+                    seed, kl, [hook, acc]]}
 
     def bad(kind, text):
         part.violation(f'{kind}:{dname}', f'{name}: {text}', det)
@@ -153,12 +176,17 @@ def case(part, item):
         kw = dict(damping=0.05, factor_decay=0.5, kl_clip=kl, lr=0.1,
                   compute_method=method,
                   compute_eigenvalue_outer_product=prediv,
-                  inv_dtype=R.DT[idt], skip_layers=['skipme'])
+                  inv_dtype=R.DT[idt], skip_layers=['skipme$'],
+                  update_factors_in_hook=hook, accumulation_steps=acc)
         if fdt:
             kw['factor_dtype'] = R.DT[fdt]
         pre = kfac.preconditioner.KFACPreconditioner(model, **kw)
+        # registered parameters decided independently of the preconditioner
+        # (from the user's skip patterns), so that a module registered
+        # against the user's wish counts as foreign
+        from vf.checks.c16 import ref_registration
         reg = set()
-        for mod, (lname, _) in pre._layers.items():
+        for lname, mod in ref_registration(model, ['skipme$']):
             for pn, _p in mod.named_parameters():
                 reg.add(f'{lname}.{pn}')
         trained = False
@@ -170,13 +198,31 @@ def case(part, item):
             before_k = kfac_state(pre)
             model.zero_grad()
             twin.zero_grad()
-            out = model(xs)
-            out_t = twin(xs)
-            if not out.requires_grad:
-                part.count('programs_without_trainable_parameters')
-                return
-            out.backward()
-            out_t.backward()
+            nmb = acc if mode == 't' else 1
+            for mb in range(nmb):
+                if mb:
+                    # an eval-mode pass between two micro-batches must not
+                    # touch K-FAC state
+                    err = eval_between(model, twin, pre, shapes, dtype,
+                                       100 + step, seed)
+                    if err:
+                        bad('eval-changed-state', f'step {step}: {err}')
+                        return
+                xs = inputs(shapes, dtype, step * 7 + mb, seed)
+                out = model(xs) / nmb
+                out_t = twin(xs) / nmb
+                if not out.requires_grad:
+                    part.count('programs_without_trainable_parameters')
+                    return
+                out.backward()
+                out_t.backward()
+            if mode == 't' and not hook:
+                # ... nor between backward and step()
+                err = eval_between(model, twin, pre, shapes, dtype,
+                                   200 + step, seed)
+                if err:
+                    bad('eval-changed-state', f'step {step}: {err}')
+                    return
             # hooks must not change outputs or autograd gradients
             if not torch.equal(out, out_t):
                 bad('output', f'step {step}: output differs from the twin '
@@ -268,10 +314,12 @@ def main(run: core.Run):
                 hs = [mode_hists[(i + run.seed) % 8],
                       mode_hists[(3 * i + 1 + run.seed) % 8]]
             kls = [1e-3, 1e30, None]
+            has = [(True, 1), (False, 1), (True, 2), (False, 2)]
             for j, h in enumerate(hs):
                 for kl in (kls if thorough else [kls[(i + j) % 3]]):
-                    items.append((kinds, dname, (m, p), idt, fdt, h,
-                                  run.seed, kl))
+                    for ha in (has if thorough else [has[(i + 2 * j) % 4]]):
+                        items.append((kinds, dname, (m, p), idt, fdt, h,
+                                      run.seed, kl, ha))
     core.pmap(run, case, items)
     run.c['states'] = run.c.get('evaluations', 0)
     run.c['transitions'] = run.c.get('evaluations', 0)
@@ -283,7 +331,9 @@ def main(run: core.Run):
         'unsupported custom module, frozen and half-frozen Linear, a Linear '
         'excluded by a skip pattern, a Sequential chain) as parallel '
         'branches x parameter dtype x method x inverse/factor dtype x '
-        'clipping {active, inactive, None} x '
+        'clipping {active, inactive, None} x hook/no-hook x accumulation {1,2} '
+        '(with eval passes inserted between micro-batches and between '
+        'backward and step) x '
         'train/eval mode histories of length 3; bit-exact snapshots of '
         'state_dict and all .grad tensors around step(), digest of all '
         'K-FAC state around eval passes, outputs/gradients vs a deep-copied '
@@ -303,5 +353,6 @@ def replay(run, data):
     it = data['detail']['item']
     part = core.Part()
     case(part, (tuple(it[0]), it[1], tuple(it[2]), it[3], it[4], it[5],
-                it[6]) + tuple(it[7:]))
+                it[6]) + tuple(tuple(x) if isinstance(x, list) else x
+                               for x in it[7:]))
     run.merge(part.dump())
